@@ -336,7 +336,11 @@ func (w *c15Worker) Item(idx int, emit func(vf.Violation), st sweep.Stats, sampl
 		}
 		if res.TimedOut {
 			st["no_answer"]++
-			emit(vf.Violation{Sig: fmt.Sprintf("no-answer|%s|%s", opSeq(p), caseFeatures(c)), Detail: fmt.Sprintf("%s: %s produced nothing for 10 s (%d rows so far)", c.Name, refsem.ProgName(p), len(res.Rows)), Replay: rep})
+			size := "few-rows"
+			if len(res.Rows) >= 300 {
+				size = "many-rows" // enough rows in flight for the fan-in deadlock of both()/bothE() (C07's known finding)
+			}
+			emit(vf.Violation{Sig: fmt.Sprintf("no-answer|%s|%s|%s", opSeq(p), caseFeatures(c), size), Detail: fmt.Sprintf("%s: %s produced nothing for 10 s (%d rows so far)", c.Name, refsem.ProgName(p), len(res.Rows)), Replay: rep})
 			// the hung pipeline keeps the connection busy: start over
 			stop()
 			gi, stop, err = c15Serve(c)
